@@ -415,3 +415,26 @@ package proj
 //@   ensures [lon] err == nil ==> lon == js_adjust_lon((*this).Long0 + coneTheta(*ns, x@0 - (*this).X0, *rh - y@0 + (*this).Y0) / *ns)
 //@   ensures [sphere_lat] err == nil && (*this).sphere ==> lat == js_adjust_lat(*g - coneRh(*ns, x@0 - (*this).X0, *rh - y@0 + (*this).Y0) / (*this).A)
 //@   modifies nothing
+
+// The projection constructors run for every transformed point on the shared *SR (NewTransform's
+// closure calls Transformers each time). Once a constructor has got past its validation, the
+// parameters it has by then written back must pass that validation too, so that the next call on the
+// same SR decides the same way (history independence, C10). Stated as an assert right after the
+// validation (the parallels are not written later), in IEEE arithmetic (NaN defaults matter).
+//@ func LCC
+//@   prop C10
+//@   mode fp
+//@   nosafety
+//@   opt trustpre=proj
+//@   opt noframe=SR,float64,*SR
+//@   requires [sr] this != nil
+//@   assert [verdict_holds_afterwards] `temp := this.B / this.A` !(abs(this.Lat1 + this.Lat2) < 1.0e-10)
+
+//@ func EqdC
+//@   prop C10
+//@   mode fp
+//@   nosafety
+//@   opt trustpre=proj
+//@   opt noframe=SR,float64,*SR
+//@   requires [sr] this != nil
+//@   assert [verdict_holds_afterwards] `temp := this.B / this.A` !(abs(this.Lat1 + this.Lat2) < 1.0e-10)
